@@ -4,7 +4,7 @@
 
 From Coq Require Import ZArith Reals List Bool Lra Lia.
 From Flocq Require Import Core.
-From Rubato.Model Require Import Num Reals Base Validate Nearest Kernels Async.
+From Rubato.Model Require Import Num Reals Base Validate Nearest Kernels Async Fft Resamplers.
 From Rubato.Gen Require Import SincGen.
 From Rubato.Proofs Require Import ShapeP ValidateP EngineP StepperR MalformedP NearestR FastInR.
 Import ListNotations.
@@ -87,8 +87,32 @@ Proof. reflexivity. Qed.
 Lemma si_end_idx_R (st : SI) L tend : @si_end_idx CR st L tend = (SincFixedIn_chunk_size st - (L + 1) - Zceil tend)%Z.
 Proof. unfold si_end_idx. cbn [c_to_isize cceil CR]. rewrite Ztrunc_IZR_id. reflexivity. Qed.
 
-Theorem si_call_const_R (s : ST) wi wo m :
-  si_wf s -> a_precheck A s wi wo m = Ok tt ->
+(* everything of the invariant except the bounds on the carried position *)
+Record si_wf0 (s : ST) : Prop := {
+  s0_C : (1 <= sC s <= sCmax s)%Z;
+  s0_n : (0 <= snch s)%Z;
+  s0_lenb : length (as_buf s) = Z.to_nat (snch s);
+  s0_lenm : length (as_mask s) = Z.to_nat (snch s);
+  s0_bufs : all_len (sCmax s + 2 * sL s) (as_buf s);
+  s0_r : 0 < sratio s;
+  s0_t : SincFixedIn_target_ratio (as_ctl s) = sratio s;
+  s0_L : (8 <= sL s)%Z;
+  s0_nbr : nbr_ok (se_type env) (snbr s);
+  s0_fill : (0 <= sfill s <= sCmax s)%Z;
+}.
+
+Lemma si_wf_wf0 (s : ST) : si_wf s -> si_wf0 s.
+Proof. intros [a b c0 d0 e f g h i0 j0 k]. constructor; assumption. Qed.
+
+(** The general one-call theorem: the carried position need not come from a call at the same ratio (see
+    FastInR.fi_call_gen_R).  (G1) the first kernel window starts inside the 2*sinc_len pre-roll, (G2) at most the
+    advertised number of frames is produced, (G3) the position is at most -4. *)
+Theorem si_call_gen_R (s : ST) wi wo m :
+  si_wf0 s ->
+  (1 - 2 * sL s <= Zfloor (sli s + / sratio s))%Z ->
+  (IZR (sC s - (sL s + 1) - Zceil (/ sratio s)) - sli s) * sratio s <= IZR (sC s) * sratio s + 8 ->
+  sli s <= -4 ->
+  a_precheck A s wi wo m = Ok tt ->
   exists (s' : ST) (n : Z) outs,
     pib A s wi wo m = Ok (s', (sC s, n), outs) /\
     (0 <= n <= @si_calc_needed_len CR (as_ctl s))%Z /\
@@ -99,7 +123,7 @@ Theorem si_call_const_R (s : ST) wi wo m :
     all_len (sCmax s + 2 * sL s) (as_buf s') /\
     - IZR (sL s + 1) - IZR (Zceil (/ sratio s)) <= sli s' <= -4.
 Proof.
-  intros W Hpre. destruct W as [WC Wn Wlb Wlm Wb Wr Wt WL Wnb Wf Wli].
+  intros W G1 G2 G3 Hpre. destruct W as [WC Wn Wlb Wlm Wb Wr Wt WL Wnb Wf].
   unfold sC, sCmax, snch, sratio, sli, sL, snbr, sfill in *.
   set (st := as_ctl s) in *.
   set (Cc := SincFixedIn_chunk_size st) in *.
@@ -170,8 +194,8 @@ Proof.
     2:{ apply le_IZR. rewrite Ztrunc_floor by lra. generalize (Zfloor_ub (IZR Cc * r + 10)). change (IZR 0) with 0. lra. }
     rewrite Ztrunc_floor by lra. generalize (Zfloor_ub (IZR Cc * r + 10)). lra. }
   assert (Hneeded1 : a_val_min_out A st = needed) by reflexivity.
-  assert (Hgap : IZR E - l0 <= IZR Cc).
-  { unfold E. rewrite !minus_IZR. destruct Wli as [Wl _]. fold t in Wl. lra. }
+  assert (Hgap : (IZR E - l0) * r <= IZR Cc * r + 8).
+  { unfold E. fold t in G2. exact G2. }
   assert (Hceil : IZR (Zceil t) - t < 1 /\ t <= IZR (Zceil t)).
   { split; [generalize (Zceil_lb t); lra | apply Zceil_ub]. }
   assert (Houts : forall k o, nth_error wo k = Some o -> nth_error mask k = Some true -> (needed <= zlen o)%Z).
@@ -185,21 +209,19 @@ Proof.
     - rewrite Hneeded1. rewrite INR_IZR_INZ, Z2Nat.id by lia. rewrite <- (plus_IZR needed 2). apply IZR_le. lia. }
   destruct (positions_in_terminates (IZR E) t Ht fuel t 0 l0) as (ps & last & Eps).
   { intros k _. lra. }
-  { assert (IZR Cc * r < INR fuel) by lra.
-    assert (IZR Cc * r * t < INR fuel * t) by (apply Rmult_lt_compat_r; lra).
-    replace (IZR Cc * r * t) with (IZR Cc * (t * r)) in H0 by ring. rewrite Htr in H0. lra. }
+  { assert (H0 : (IZR E - l0) * r < INR fuel) by lra.
+    assert (H1 : (IZR E - l0) * r * t < INR fuel * t) by (apply Rmult_lt_compat_r; lra).
+    replace ((IZR E - l0) * r * t) with ((IZR E - l0) * (t * r)) in H1 by ring. rewrite Htr in H1. lra. }
   rewrite Eps.
   destruct (positions_in_spec (IZR E) fuel t 0 l0 ps last Eps) as (Hps & Hlast & Hlt & Hge & Hnf).
   set (n := length ps) in *. assert (En : n = length ps) by reflexivity. clearbody n.
   assert (Hpos : forall k, pos_at l0 t 0 k = l0 + INR k * t) by (intros k; unfold pos_at; lra).
-  assert (Hn : INR n < IZR Cc * r + 1).
+  assert (Hn : INR n < IZR Cc * r + 9).
   { destruct n as [|n']; [cbn; assert (0 <= IZR Cc * r) by (apply Rmult_le_pos; [apply IZR_le; lia|lra]); lra|].
     specialize (Hlt n' ltac:(lia)). rewrite Hpos in Hlt. rewrite S_INR.
-    assert (INR n' * t < IZR Cc) by lra.
-    assert (INR n' < IZR Cc * r).
-    { assert (INR n' * t * r < IZR Cc * r) by (apply Rmult_lt_compat_r; lra).
-      replace (INR n' * t * r) with (INR n' * (t * r)) in H0 by ring. rewrite Htr in H0. lra. }
-    lra. }
+    assert (H0 : INR n' * t < IZR E - l0) by lra.
+    assert (H1 : INR n' * t * r < (IZR E - l0) * r) by (apply Rmult_lt_compat_r; lra).
+    replace (INR n' * t * r) with (INR n' * (t * r)) in H1 by ring. rewrite Htr in H1. lra. }
   assert (Hn' : (Z.of_nat n <= needed)%Z).
   { apply le_IZR. rewrite <- INR_IZR_INZ. lra. }
   (* every instant: the kernel windows satisfy the asserts of get_sinc_interpolated *)
@@ -210,10 +232,10 @@ Proof.
     { destruct k as [|k']; [lia|]. specialize (Hlt k' ltac:(lia)). rewrite Hpos in Hlt. rewrite S_INR. lra. }
     assert (K0 : l0 + t <= l0 + INR k * t).
     { assert (1 <= INR k) by (change 1 with (INR 1); apply le_INR; lia). nra. }
-    assert (Fb : (- (L + 2) <= Zfloor (l0 + INR k * t) < Cc - (L + 1))%Z).
-    { apply Zfloor_bounds.
-      - destruct Wli as [Wl _]. fold t in Wl. rewrite opp_IZR, !plus_IZR in *. change (IZR 2) with 2. change (IZR 1) with 1 in *. lra.
-      - unfold E in K1. rewrite !minus_IZR in K1. rewrite minus_IZR. lra. }
+    assert (Fb : (1 - 2 * L <= Zfloor (l0 + INR k * t) < Cc - (L + 1))%Z).
+    { split; [eapply Z.le_trans; [exact G1|]; fold t; apply Zfloor_le; exact K0|].
+      apply lt_IZR. eapply Rle_lt_trans; [apply Zfloor_lb|].
+      unfold E in K1. rewrite !minus_IZR in K1. rewrite minus_IZR. lra. }
     match goal with |- exists v, sinc_sample env L ?nb ?kidx ?fr b ?i = Ok v =>
       assert (Hk' : kidx = (fun i0 : Z => (i0 + 2 * L)%Z)) end.
     { destruct (se_type env) eqn:Et; cbn; rewrite ?Et; reflexivity. }
@@ -228,7 +250,7 @@ Proof.
   { unfold E in Hge. rewrite !minus_IZR in Hge. lra. }
   assert (Hi : last - IZR Cc <= -4).
   { rewrite Elast. destruct n as [|n'].
-    + cbn [INR]. destruct Wli as [_ Wu]. assert (1 <= IZR Cc) by (apply IZR_le; lia). lra.
+    + cbn [INR]. assert (1 <= IZR Cc) by (apply IZR_le; lia). lra.
     + specialize (Hlt n' ltac:(lia)). rewrite Hpos in Hlt. rewrite S_INR. unfold E in Hlt. rewrite !minus_IZR in Hlt.
       rewrite plus_IZR in Hlt. assert (8 <= IZR L) by (apply IZR_le; lia). change (IZR 1) with 1 in Hlt. lra. }
   unfold sC, sCmax, snch, sratio, sli, sL, snbr, sfill.
@@ -243,6 +265,32 @@ Proof.
     try (rewrite Elast, <- INR_IZR_INZ; lra); try (unfold zlen in Vm; lia).
 Qed.
 
+(** the constant-ratio case *)
+Theorem si_call_const_R (s : ST) wi wo m :
+  si_wf s -> a_precheck A s wi wo m = Ok tt ->
+  exists (s' : ST) (n : Z) outs,
+    pib A s wi wo m = Ok (s', (sC s, n), outs) /\
+    (0 <= n <= @si_calc_needed_len CR (as_ctl s))%Z /\
+    sli s' = sli s + IZR n * / sratio s - IZR (sC s) /\
+    sC s' = sC s /\ sCmax s' = sCmax s /\ snch s' = snch s /\ sratio s' = sratio s /\ sL s' = sL s /\ snbr s' = snbr s /\
+    SincFixedIn_target_ratio (as_ctl s') = sratio s /\ sfill s' = sC s /\
+    length (as_buf s') = length (as_buf s) /\ length (as_mask s') = Z.to_nat (snch s) /\
+    all_len (sCmax s + 2 * sL s) (as_buf s') /\
+    - IZR (sL s + 1) - IZR (Zceil (/ sratio s)) <= sli s' <= -4.
+Proof.
+  intros W Hpre. pose proof (si_wf_wf0 s W) as W0. destruct W as [WC Wn Wlb Wlm Wb Wr Wt WL Wnb Wf Wli].
+  assert (Ht : 0 < / sratio s) by (apply Rinv_0_lt_compat; exact Wr).
+  assert (Hceil : IZR (Zceil (/ sratio s)) - / sratio s < 1 /\ / sratio s <= IZR (Zceil (/ sratio s))).
+  { split; [generalize (Zceil_lb (/ sratio s)); lra | apply Zceil_ub]. }
+  assert (HL8 : 8 <= IZR (sL s)) by (apply IZR_le; exact WL).
+  apply (si_call_gen_R s wi wo m W0); try exact Hpre.
+  - apply Zfloor_lub. rewrite minus_IZR, mult_IZR. rewrite plus_IZR in Wli. change (IZR 1) with 1 in *. change (IZR 2) with 2. lra.
+  - rewrite !minus_IZR, plus_IZR. rewrite plus_IZR in Wli. change (IZR 1) with 1 in *.
+    assert (IZR (sC s) - (IZR (sL s) + 1) - IZR (Zceil (/ sratio s)) - sli s <= IZR (sC s)) by lra.
+    assert ((IZR (sC s) - (IZR (sL s) + 1) - IZR (Zceil (/ sratio s)) - sli s) * sratio s <= IZR (sC s) * sratio s) by (apply Rmult_le_compat_r; lra). lra.
+  - lra.
+Qed.
+
 (** the invariant is re-established by the call, and by set_chunk_size in between *)
 Lemma si_wf_after (s s' : ST) :
   si_wf s ->
@@ -254,6 +302,19 @@ Lemma si_wf_after (s s' : ST) :
   si_wf s'.
 Proof.
   intros [WC Wn Wlb Wlm Wb Wr Wt WL Wnb Wf Wli] H1 H2 H3 H4 H5 H6 H7 H8 H9 H10 H11 H12.
+  constructor; rewrite ?H1, ?H2, ?H3, ?H4, ?H5, ?H6, ?H8; try assumption; try lia; try (rewrite H9; exact Wlb).
+Qed.
+
+Lemma si_wf_after0 (s s' : ST) :
+  si_wf0 s ->
+  sC s' = sC s -> sCmax s' = sCmax s -> snch s' = snch s -> sratio s' = sratio s -> sL s' = sL s -> snbr s' = snbr s ->
+  SincFixedIn_target_ratio (as_ctl s') = sratio s -> sfill s' = sC s ->
+  length (as_buf s') = length (as_buf s) -> length (as_mask s') = Z.to_nat (snch s) ->
+  all_len (sCmax s + 2 * sL s) (as_buf s') ->
+  - IZR (sL s + 1) - IZR (Zceil (/ sratio s)) <= sli s' <= -4 ->
+  si_wf s'.
+Proof.
+  intros [WC Wn Wlb Wlm Wb Wr Wt WL Wnb Wf] H1 H2 H3 H4 H5 H6 H7 H8 H9 H10 H11 H12.
   constructor; rewrite ?H1, ?H2, ?H3, ?H4, ?H5, ?H6, ?H8; try assumption; try lia; try (rewrite H9; exact Wlb).
 Qed.
 
@@ -366,3 +427,167 @@ Proof.
 Qed.
 
 End History.
+
+(** * Histories with non-ramped ratio changes and set_chunk_size between the calls (see FastInR, Section Steps) *)
+Section Steps.
+Variable env : sinc_env.
+Notation A := (@si_arch CR SR env).
+Notation ST := (@astate CR SR SI).
+
+(* rc: the ratio in force during the last call; r2: the ratio for the next one; L: sinc_len *)
+Definition sstep_compatible (L : Z) (rc r2 : R) : Prop :=
+  0 < r2 /\
+  IZR (Zceil (/ rc)) - / r2 <= IZR (L - 2) /\                       (* first window starts inside the 2*L pre-roll *)
+  (IZR (Zceil (/ rc)) - IZR (Zceil (/ r2))) * r2 <= 8.              (* at most output_frames_next() frames are produced *)
+
+Lemma sstep_compatible_refl L r : (8 <= L)%Z -> 0 < r -> sstep_compatible L r r.
+Proof.
+  intros HL Hr. assert (Ht : 0 < / r) by (apply Rinv_0_lt_compat; exact Hr).
+  split; [exact Hr|]. split.
+  - assert (IZR (Zceil (/ r)) - / r < 1) by (generalize (Zceil_lb (/ r)); lra).
+    assert (6 <= IZR (L - 2)) by (apply IZR_le; lia). lra.
+  - rewrite Rminus_diag_eq by reflexivity. lra.
+Qed.
+
+Record si_wfs (rc : R) (s : ST) : Prop := {
+  ss_0 : si_wf0 env s;
+  ss_li : - IZR (sL s + 1) - IZR (Zceil (/ rc)) <= sli s <= -4;
+  ss_c : sstep_compatible (sL s) rc (sratio s);
+}.
+
+Lemma si_wf_wfs (s : ST) : si_wf env s -> si_wfs (sratio s) s.
+Proof.
+  intros W. pose proof (si_wf_wf0 env s W) as W0. destruct W as [_ _ _ _ _ Wr _ WL _ _ Wl].
+  constructor; [exact W0 | exact Wl | apply sstep_compatible_refl; assumption].
+Qed.
+
+Theorem si_call_step_R rc (s : ST) wi wo m :
+  si_wfs rc s -> a_precheck A s wi wo m = Ok tt ->
+  exists (s' : ST) (n : Z) outs,
+    pib A s wi wo m = Ok (s', (sC s, n), outs) /\ si_wf env s' /\
+    (0 <= n <= @si_calc_needed_len CR (as_ctl s))%Z /\
+    sli s' = sli s + IZR n * / sratio s - IZR (sC s) /\
+    sC s' = sC s /\ sCmax s' = sCmax s /\ sratio s' = sratio s /\ sL s' = sL s.
+Proof.
+  intros [W0 Wl (Hr & C1 & C2)] Hpre.
+  assert (Ht : 0 < / sratio s) by (apply Rinv_0_lt_compat; exact Hr).
+  destruct (si_call_gen_R env s wi wo m W0) as (s' & n & outs & E & Hn & Hli & HC & HCm & Hnch & Hr' & HL & Hnb & Htt & Hf & Hlb & Hlm & Hb & Hbound);
+    try exact Hpre.
+  - apply Zfloor_lub. rewrite minus_IZR, mult_IZR. rewrite plus_IZR in Wl. rewrite minus_IZR in C1.
+    change (IZR 1) with 1 in *. change (IZR 2) with 2 in *. lra.
+  - rewrite !minus_IZR, plus_IZR. rewrite plus_IZR in Wl. change (IZR 1) with 1 in *.
+    assert (H0 : IZR (sC s) - (IZR (sL s) + 1) - IZR (Zceil (/ sratio s)) - sli s <=
+                 IZR (sC s) + (IZR (Zceil (/ rc)) - IZR (Zceil (/ sratio s)))) by lra.
+    assert (H1 : (IZR (sC s) - (IZR (sL s) + 1) - IZR (Zceil (/ sratio s)) - sli s) * sratio s <=
+                 (IZR (sC s) + (IZR (Zceil (/ rc)) - IZR (Zceil (/ sratio s)))) * sratio s) by (apply Rmult_le_compat_r; lra).
+    lra.
+  - lra.
+  - exists s', n, outs. split; [exact E|]. split; [eapply si_wf_after0; eassumption|].
+    repeat split; try assumption; lia.
+Qed.
+
+Lemma si_set_chunk_wfs rc (s : ST) n : si_wfs rc s -> (0 <= n)%Z ->
+  si_wfs rc (si_set_chunk s n) /\ sratio (si_set_chunk s n) = sratio s /\ sCmax (si_set_chunk s n) = sCmax s.
+Proof.
+  intros W Hn. unfold si_set_chunk, si_set_chunk_bad.
+  destruct (Z.gtb_spec n (SincFixedIn_max_chunk_size (as_ctl s))); destruct (Z.eqb_spec n 0); cbn [orb];
+    try (split; [exact W | split; reflexivity]).
+  destruct W as [[WC Wn Wlb Wlm Wb Wr Wt WL Wnb Wf] Wli Wc].
+  unfold sC, sCmax, snch, sratio, sli, sL, snbr, sfill in *.
+  split; [|split; reflexivity].
+  constructor; [constructor|..]; unfold sC, sCmax, snch, sratio, sli, sL, snbr, sfill; cbn [as_ctl as_buf as_mask];
+    unfold set_SincFixedIn_chunk_size;
+    cbn [SincFixedIn_nbr_channels SincFixedIn_chunk_size SincFixedIn_max_chunk_size SincFixedIn_current_buffer_fill
+         SincFixedIn_last_index SincFixedIn_resample_ratio SincFixedIn_target_ratio
+         SincFixedIn_interpolator_len SincFixedIn_interpolator_nbr_sincs]; try assumption; try lia.
+Qed.
+
+Lemma si_set_ratio_wfs rc (s s1 : ST) r2 :
+  si_wfs rc s -> sstep_compatible (sL s) rc r2 -> @si_set_ratio CR SR s r2 false = (s1, Ok tt) ->
+  si_wfs rc s1 /\ sratio s1 = r2 /\ sCmax s1 = sCmax s /\ sL s1 = sL s.
+Proof.
+  intros [[WC Wn Wlb Wlm Wb Wr Wt WL Wnb Wf] Wl Wc] Hc E. unfold si_set_ratio in E.
+  destruct (si_set_ratio_accept (as_ctl s) r2); [|discriminate E].
+  injection E as <-. destruct Hc as (H1 & H2 & H3).
+  unfold sC, sCmax, snch, sratio, sli, sL, snbr, sfill in *. destruct s as [st bufs mask]. destruct st.
+  cbn in *. split; [|repeat split; reflexivity].
+  constructor; [constructor; cbn; assumption || reflexivity | exact Wl | cbn; repeat split; assumption].
+Qed.
+
+Inductive si_op2 :=
+| S2Call (wi wo : list (list R)) (m : option (list bool))
+| S2Chunk (n : Z)
+| S2Step (r2 : R).
+
+(* the run records, for every call, (frames consumed, frames produced, chunk_size and output_frames_next() before the call) *)
+Fixpoint si_run_ops (s : ST) (ops : list si_op2) : res (ST * list (Z * Z * Z * Z)) :=
+  match ops with
+  | [] => Ok (s, [])
+  | S2Call wi wo m :: rest =>
+      do _ <- a_precheck A s wi wo m;
+      do x <- pib A s wi wo m;
+      let '(s', (a, b), _) := x in
+      do y <- si_run_ops s' rest;
+      let '(s'', log) := y in
+      Ok (s'', (a, b, sC s, @si_calc_needed_len CR (as_ctl s)) :: log)
+  | S2Chunk n :: rest => si_run_ops (si_set_chunk s n) rest
+  | S2Step r2 :: rest =>
+      match @si_set_ratio CR SR s r2 false with
+      | (s1, Ok tt) => si_run_ops s1 rest
+      | (_, Err e) => Err e
+      | (_, Panic e) => Panic e | (_, UB e) => UB e | (_, Diverge) => Diverge
+      end
+  end.
+
+Fixpoint ssteps_compatible (L : Z) (rc r : R) (ops : list si_op2) : Prop :=
+  match ops with
+  | [] => True
+  | S2Call _ _ _ :: rest => ssteps_compatible L r r rest
+  | S2Chunk n :: rest => (0 <= n)%Z /\ ssteps_compatible L rc r rest
+  | S2Step r2 :: rest => sstep_compatible L rc r2 /\ ssteps_compatible L rc r2 rest
+  end.
+
+Definition scall_ok (e : Z * Z * Z * Z) : Prop :=
+  let '(a, b, c, adv) := e in a = c /\ (0 <= b <= adv)%Z.
+
+(** Every history of well-formed calls, set_chunk_size calls and accepted, compatible, non-ramped ratio changes runs
+    without a failed assert, an out-of-range access or non-termination; every call consumes the current chunk_size
+    and produces at most output_frames_next() frames. *)
+Theorem si_history_steps_R : forall ops rc (s : ST), si_wfs rc s -> ssteps_compatible (sL s) rc (sratio s) ops ->
+  match si_run_ops s ops with
+  | Ok (s', log) => (exists rc', si_wfs rc' s') /\ sCmax s' = sCmax s /\ Forall scall_ok log
+  | Err _ => True
+  | Panic _ | UB _ | Diverge => False
+  end.
+Proof.
+  induction ops as [|[wi wo m|k|r2] rest IH]; intros rc s W Hc; cbn [si_run_ops].
+  - split; [exists rc; exact W|]. split; [reflexivity|constructor].
+  - cbn [ssteps_compatible] in Hc.
+    destruct (a_precheck A s wi wo m) as [[]| | | |] eqn:Ep; cbn [bind]; try exact I.
+    + destruct (si_call_step_R rc s wi wo m W Ep) as (s' & n & outs & E & W' & Hn & Hli & HC & HCm & Hr & HL).
+      rewrite E. cbn [bind]. apply si_wf_wfs in W'. rewrite <- Hr, <- HL in Hc.
+      specialize (IH (sratio s') s' W' Hc).
+      destruct (si_run_ops s' rest) as [[s'' log]| | | |]; cbn [bind]; try exact IH.
+      destruct IH as (W'' & HC'' & Hlog). split; [exact W''|]. split; [congruence|].
+      constructor; [cbn; split; [reflexivity|exact Hn] | exact Hlog].
+    + destruct (a_precheck_total A s wi wo m) as [H|[e H]]; rewrite H in Ep; discriminate.
+    + destruct (a_precheck_total A s wi wo m) as [H|[e H]]; rewrite H in Ep; discriminate.
+    + destruct (a_precheck_total A s wi wo m) as [H|[e H]]; rewrite H in Ep; discriminate.
+  - cbn [ssteps_compatible] in Hc. destruct Hc as [Hk Hc].
+    destruct (si_set_chunk_wfs rc s k W Hk) as (W1 & Hr1 & HC1).
+    assert (HL1 : sL (si_set_chunk s k) = sL s) by (unfold si_set_chunk; destruct (si_set_chunk_bad _ _); reflexivity).
+    rewrite <- Hr1, <- HL1 in Hc. specialize (IH rc _ W1 Hc).
+    destruct (si_run_ops (si_set_chunk s k) rest) as [[s'' log]| | | |]; try exact IH.
+    destruct IH as (W'' & HC'' & Hlog). split; [exact W''|]. split; [congruence|exact Hlog].
+  - cbn [ssteps_compatible] in Hc. destruct Hc as [Hc1 Hc2].
+    destruct (@si_set_ratio CR SR s r2 false) as [s1 o] eqn:Es.
+    assert (Ho : o = Ok tt \/ exists e, o = Err e).
+    { unfold si_set_ratio in Es. destruct (si_set_ratio_accept (as_ctl s) r2); injection Es as <- <-; [left; reflexivity | right; eexists; reflexivity]. }
+    destruct Ho as [-> | [e ->]]; [|exact I].
+    destruct (si_set_ratio_wfs rc s s1 r2 W Hc1 Es) as (W1 & Hr1 & HC1 & HL1).
+    rewrite <- Hr1, <- HL1 in Hc2. specialize (IH rc s1 W1 Hc2).
+    destruct (si_run_ops s1 rest) as [[s'' log]| | | |]; try exact IH.
+    destruct IH as (W'' & HC'' & Hlog). split; [exact W''|]. split; [congruence|exact Hlog].
+Qed.
+
+End Steps.
